@@ -1242,6 +1242,10 @@ func replay(c *core.Ctx) {
 		c.HarnessError("bad case: %v", err)
 		return
 	}
+	if cs.SaveFormat <= -31 {
+		checker{c}.sinks(-cs.SaveFormat - 31)
+		return
+	}
 	if cs.SaveFormat <= -21 {
 		checker{c}.loadAfterReplace(-cs.SaveFormat - 21)
 		return
